@@ -165,6 +165,51 @@ def stageTimes (T : Tableau α) (t dt : α) : List α := T.c.map (fun c => t + c
 
 end rk
 
+/-! ## Part 3: the loop with the state vector carried along
+
+`DESolver.solve` (Solver.py 212-217): `X0_flat, dt = self.iterator(...)`, `currTime += dt`,
+`postProcess(currTime, X0)`: the step by which the clock advances IS the step the iterator used for
+the state update.  `stepDt` is that step (the same expression as inside `step`), `stepX` one pass of
+the loop body on (clock state, model state) for an arbitrary iterator `iter dt t x` (`eulerIter` /
+`rk4Iter` of Part 2 with the model's right-hand side plugged in, or anything else). -/
+
+section loopx
+variable {α V : Type} [Add α] [Sub α] [Mul α] [LT α] [DecidableLT α]
+
+/-- the step taken in one pass: the clamped proposal (Solver.py 134-137 with the maximum of 205-206) -/
+def stepDt (tf dtmin : α) (propose : List α → Dt α) (s : St α) : α :=
+  let rem := tf - s.cur
+  let dtmax' := if rem < s.dtmax then rem else s.dtmax
+  clampDt dtmin dtmax' (propose s.times)
+
+/-- one pass through the loop body with the state: the iterator is given the current time and state
+and the step; the clock advances by that same step -/
+def stepX (tf dtmin : α) (propose : List α → Dt α) (stopAt : List α → Bool) (iter : α → α → V → V)
+    (s : St α × V) : St α × V :=
+  (step tf dtmin propose stopAt s.1, iter (stepDt tf dtmin propose s.1) s.1.cur s.2)
+
+/-- the while loop with a fuel argument, state carried along -/
+def runX (tf dtmin : α) (propose : List α → Dt α) (stopAt : List α → Bool) (iter : α → α → V → V) :
+    Nat → St α × V → St α × V
+  | 0, s => s
+  | n+1, s => if s.1.cur < tf ∧ s.1.stop = false
+      then runX tf dtmin propose stopAt iter n (stepX tf dtmin propose stopAt iter s) else s
+
+/-- `DESolver.solve(t0, X0, tf)`: final clock state and final model state -/
+def solveX (t0 tf minFrac maxFrac : α) (propose : List α → Dt α) (stopAt : List α → Bool)
+    (iter : α → α → V → V) (x0 : V) (fuel : Nat) : St α × V :=
+  runX tf (minFrac * (tf - t0)) propose stopAt iter fuel (initSt t0 tf maxFrac, x0)
+
+/-- the same, also returning the state handed to `postProcess` after every pass (newest first) -/
+def runXs (tf dtmin : α) (propose : List α → Dt α) (stopAt : List α → Bool) (iter : α → α → V → V) :
+    Nat → (St α × V) × List V → (St α × V) × List V
+  | 0, s => s
+  | n+1, s => if s.1.1.cur < tf ∧ s.1.1.stop = false
+      then (let s' := stepX tf dtmin propose stopAt iter s.1
+            runXs tf dtmin propose stopAt iter n (s', s'.2 :: s.2)) else s
+
+end loopx
+
 /-- scalar state: arrays of length one -/
 def scalarOps {α : Type} [Add α] [Mul α] [Div α] : VecOps α α :=
   { add := (· + ·), smul := (· * ·), sdiv := (· / ·) }
